@@ -10,7 +10,9 @@ Myhill–Nerode index computed by an independent Moore refinement (complete resu
 the number of live residual classes, at least one (partial result); a partial result
 has no dead state unless it is its only state; minimising the result again keeps its
 size; retained names are EXACTLY the classes of merged source states (independent Moore
-refinement on the source handed to `_minify`).  PART_REFINE: the real `PartitionRefinement`
+refinement on the source handed to `_minify`).  Round 4 (`do_chain`): chains X1 = op1(A), X2 = op2(X1), X3 = op3(X2)
+of minimising calls, each made on the object the previous call returned and judged with the same oracles against THAT
+object's definition (a result must not carry anything that changes what the next call on it does).  PART_REFINE: the real `PartitionRefinement`
 vs. the model's `Part.refine`, on random histories and on every refine call logged inside
 the real `_minify` (partition as a set of sets and returned pairs after every call).
 """
@@ -35,6 +37,10 @@ RULE = ("cases = (DFA, retain_names) for minify(), plus minify=True paths of uni
         "unjudged queries, one step often repeated — on operands built under allow_mutable_automata=True from PLAIN "
         "set/dict containers (option left on or switched off again for the calls), every minify=True result judged "
         "(language, minimality, minimal-again, exact retained names) against a FROZEN TWIN = the definition as built; "
+        "chains of 2–3 minimising calls (minify / to_partial / complement / Boolean operations / from_nfa first, both "
+        "retain_names values in every position) each made on THE OBJECT the previous call returned (or a copy / a rebuilt "
+        "DFA), every call judged — incl. the exact retained names — against the object it was made on (all pairs of calls on 4 "
+        "fixed DFAs, then random); "
         "non-trivial = source has ≥3 reachable "
         "states and minimisation merges or removes at least one of them; distinct = distinct encoded sources")
 ASSUMPTIONS = [
@@ -282,10 +288,12 @@ def check_min_props(ctx: Ctx, what: str, src_machines, spec, R: DFA, replay: dic
 
 
 @guarded
-def do_minify(ctx: Ctx, A: DFA, retain: bool, origin: str):
+def do_minify(ctx: Ctx, A: DFA, retain: bool, origin: str, replay: dict = None, prefix: str = ""):
+    """`A` is the very object the call is made on (for the chained family: the RESULT object of an earlier call,
+    with whatever that call left on it); `replay`: how to obtain that object again when repr(A) would not."""
     drv = ctx.driver("drv_dfa_ops")
     encA, stA, sy = enc_dfa(A)
-    replay = dict(op="minify", retain_names=retain, A=repr(A))
+    replay = replay or dict(op="minify", retain_names=retain, A=repr(A))
     with RefineLog() as lg:
         res = call(lambda: A.minify(retain_names=retain))
     # every PartitionRefinement.refine call the real `_minify` made, replayed on the model's Part.refine
@@ -295,14 +303,14 @@ def do_minify(ctx: Ctx, A: DFA, retain: bool, origin: str):
     ctx.stat("source_partial" if A.allow_partial else "source_complete")
     if res[0] == "err":
         ctx.case(None)
-        ctx.prop_fail(f"minify(retain_names={retain}) raised {res[1]} on a valid DFA", replay)
-        return
+        ctx.prop_fail(f"{prefix}minify(retain_names={retain}) raised {res[1]} on a valid DFA", replay)
+        return None
     R = res[1]
     exp = None
     if retain:
         kept = kept_for_minify(A)
         exp = expected_block_names(A.transitions, kept, set(A.final_states) & kept, A.input_symbols)
-    ok = check_min_props(ctx, f"minify(retain_names={retain})", [A], lambda x: x, R, replay, A.input_symbols,
+    ok = check_min_props(ctx, f"{prefix}minify(retain_names={retain})", [A], lambda x: x, R, replay, A.input_symbols,
                          expected_names=exp)
     rc = reachable_count(A)
     ctx.case(("minify", retain, encA) if ok and rc >= 3 and len(R.states) < rc else None)
@@ -323,6 +331,7 @@ def do_minify(ctx: Ctx, A: DFA, retain: bool, origin: str):
         ctx.sample(dict(source=repr(A), retain_names=retain, result=repr(R), canonical=imp))
     if imp != mod and ok:
         ctx.corr_diff("DFA_MINIFY", replay, imp, mod)
+    return R
 
 
 def _reach(d: DFA):
@@ -346,7 +355,13 @@ def do_minify_via_op(ctx: Ctx, A: DFA, B: DFA, origin: str, N=None):
     from harness.ops.C04 import OPS
     rng = ctx.rng
     opname = rng.choice(list(OPS) + ["complement", "to_partial"]) if N is None else "from_nfa"
-    retain = rng.random() < 0.5
+    return via_op_case(ctx, A, B, opname, rng.random() < 0.5, N)
+
+
+def via_op_case(ctx: Ctx, A: DFA, B: DFA, opname: str, retain: bool, N=None, replay_as: dict = None, prefix: str = ""):
+    """One minify=True call `opname` on the object `A` (second operand `B`) judged against the definitions of the
+    objects the call was made on.  Returns the result object (None when the call raised)."""
+    from harness.ops.C04 import OPS
     ctx.stat("via_" + opname)
     exp = None
     if opname in OPS:
@@ -379,15 +394,114 @@ def do_minify_via_op(ctx: Ctx, A: DFA, B: DFA, origin: str, N=None):
         if retain:
             P = DFA.from_nfa(N, retain_names=True, minify=False)
             exp = expected_block_names(P.transitions, set(P.states), set(P.final_states), P.input_symbols)
+    if replay_as is not None:
+        replay = replay_as
     if res[0] == "err":
         ctx.case(None)
-        ctx.prop_fail(f"{opname}(minify=True) raised {res[1]}", replay)
-        return
+        ctx.prop_fail(f"{prefix}{opname}(minify=True) raised {res[1]}", replay)
+        return None
     R = res[1]
     alphabet = (N if N is not None else A).input_symbols
-    ok = check_min_props(ctx, f"{opname}(retain_names={retain}, minify=True)", srcs, sp, R, replay, alphabet,
+    ok = check_min_props(ctx, f"{prefix}{opname}(retain_names={retain}, minify=True)", srcs, sp, R, replay, alphabet,
                          expected_names=exp)
     ctx.case(("via", opname, retain, repr(N if N is not None else A), repr(B)) if ok and len(R.states) >= 2 else None)
+    return R
+
+
+# ------------------------------------------------------------------ chains: calls on RESULTS of earlier minimising calls (round 4)
+CHAIN_UNARY = ["minify", "to_partial", "complement"]
+CHAIN_BINARY = ["union", "inter", "diff", "symm"]
+CHAIN_LINKS = ["same", "same", "same", "copy", "rebuilt"]
+
+
+def _chain_call(X: DFA, B: DFA, opname: str, retain: bool):
+    """The call of a chain step, made silently (how the NEXT step's receiver is obtained when the judged call of this
+    step is not the one that produced it — never used for a verdict)."""
+    from harness.ops.C04 import OPS
+    if opname == "minify":
+        return X.minify(retain_names=retain)
+    if opname == "to_partial":
+        return X.to_partial(retain_names=retain)
+    if opname == "complement":
+        return X.complement(retain_names=retain)
+    return OPS[opname][0](X, B, retain_names=retain, minify=True)
+
+
+@guarded
+def do_chain(ctx: Ctx, A: DFA, B: DFA, chain, origin: str, N=None):
+    """X1 = op1(A); X2 = op2(X1); X3 = op3(X2): every call of the chain is a minimising call (minify / to_partial /
+    complement / Boolean operation with `B`, both retain_names values, in every position) made on THE OBJECT the
+    previous call returned (`link` "same"; "copy": on `.copy()` of it; "rebuilt": on a DFA built again from its
+    definition) and judged — language, minimum size, no dead state, minimal-again, and with retain_names=True the names
+    EXACTLY the classes of the states of the object the call was made on — against that object's definition.
+    `chain` = [(opname, retain_names, link), …]; with `N` the first call is DFA.from_nfa(N, …)."""
+    X = A
+    for i, (opname, retain, link) in enumerate(chain):
+        rp = dict(op="chain", A=repr(A), B=repr(B), N=(repr(N) if N is not None else None), chain=[list(c) for c in chain[: i + 1]],
+                  failing_call=i)
+        ctx.stat(f"chain_step{i + 1}:{opname}:retain={int(retain)}")
+        if i > 0:
+            ctx.stat(f"chain_link:{link}")
+            if link == "copy":
+                X = X.copy()
+            elif link == "rebuilt":
+                X = DFA(states=set(X.states), input_symbols=set(X.input_symbols), transitions={q: dict(r) for q, r in X.transitions.items()},
+                        initial_state=X.initial_state, final_states=set(X.final_states), allow_partial=X.allow_partial)
+        before = ctx.n_prop_fails
+        pre = "" if i == 0 else (f"call #{i + 1} of the chain " + " → ".join(f"{o}(retain_names={r})" for o, r, _ in chain[: i + 1])
+                                 + ", made on " + {"same": "the object", "copy": "a copy of the object", "rebuilt": "a DFA rebuilt from the object"}[link]
+                                 + f" call #{i} returned: ")
+        if i == 0 and N is not None:
+            R = via_op_case(ctx, None, None, "from_nfa", retain, N=N, replay_as=rp, prefix=pre)
+        elif opname == "minify":
+            R = do_minify(ctx, X, retain, origin + "_minify_call", rp, pre)
+        else:
+            R = via_op_case(ctx, X, B, opname, retain, replay_as=rp, prefix=pre)
+        if R is None or ctx.n_prop_fails > before:
+            return
+        X = R
+    ctx.stat(origin)
+    ctx.stat(f"chain_length:{len(chain)}")
+
+
+def draw_chain(rng, length: int = None):
+    n = length or rng.choice([2, 2, 2, 3])
+    out = []
+    for i in range(n):
+        op = rng.choice(CHAIN_UNARY + CHAIN_BINARY) if i == 0 else rng.choice(CHAIN_UNARY * 2 + CHAIN_BINARY)
+        retain = rng.random() < (0.4 if i == 0 else 0.7)
+        out.append((op, retain, "same" if i == 0 else rng.choice(CHAIN_LINKS)))
+    return out
+
+
+def run_chains(ctx: Ctx, n: int):
+    rng = ctx.rng
+    ab = ("a", "b")
+    # bounded-exhaustive: every (first call, retain) × (second call, retain) on the same object, on fixed sources
+    srcs = [DFA.from_finite_language(set(ab), {"ab", "b", "ba"}), DFA.from_substring(set(ab), "aa"),
+            DFA(states={0, 1, 2, 3, 4}, input_symbols=set(ab), transitions={0: {"a": 1, "b": 2}, 1: {"a": 3, "b": 4}, 2: {"a": 4, "b": 3},
+                                                                           3: {"a": 3, "b": 3}, 4: {"a": 4, "b": 4}},
+                initial_state=0, final_states={3}),
+            DFA(states={0, 1, 2, 3}, input_symbols=set(ab), transitions={0: {"a": 1, "b": 2}, 1: {"a": 3}, 2: {"a": 3}, 3: {"b": 0}},
+                initial_state=0, final_states={3}, allow_partial=True)]
+    B = DFA.from_prefix(set(ab), "a")
+    ops = CHAIN_UNARY + CHAIN_BINARY
+    for A in srcs:
+        for o1 in ops:
+            for r1 in (False, True):
+                for o2 in ops:
+                    for r2 in (False, True):
+                        do_chain(ctx, A, B, [(o1, r1, "same"), (o2, r2, "same")], "chain_exhaustive")
+    ctx.exhaustive(f"chains: all {len(ops) ** 2 * 4} pairs (first minimising call, retain_names) × (second minimising call made on the "
+                   f"object the first returned, retain_names) over {ops} on {len(srcs)} fixed DFAs over {{a,b}}")
+    for _ in range(n):
+        al = rng.choice(gen.ALPHABETS)
+        A = gen.rand_dfa(rng, 6, al, partial=True if rng.random() < 0.4 else None)
+        B = gen.rand_dfa(rng, 3, al)
+        if rng.random() < 0.15:
+            do_chain(ctx, None, B, draw_chain(rng), "chain_random_from_nfa", N=gen.rand_nfa(rng, 4, alphabet=al))
+        else:
+            do_chain(ctx, A, B, draw_chain(rng), "chain_random")
 
 
 def expected_names_for_step(step: str, A: DFA):
@@ -473,6 +587,7 @@ def run(ctx: Ctx):
     run_part_refine(ctx, ctx.budget(600, 20000))
     run_sequences(ctx, ctx.budget(500, 10000))
     run_mutable_option(ctx, ctx.budget(600, 12000))
+    run_chains(ctx, ctx.budget(500, 10000))
     # 0. corpus: triggers of repaired defects (F1, F19, F16 neighbourhood)
     for A in corpus():
         for retain in (False, True):
@@ -548,7 +663,11 @@ def replay(ctx: Ctx, path: str) -> int:
     if rp.get("op") == "part_refine":
         print("replay: PART_REFINE cases are correspondence-only (model vs. PartitionRefinement); re-run by seed")
         return 0
-    if rp.get("op") == "sequence" and rp.get("mutable"):
+    if rp.get("op") == "chain":
+        from automata.fa.nfa import NFA
+        N = eval(rp["N"], dict(env, NFA=NFA)) if rp.get("N") else None
+        do_chain(ctx, eval(rp["A"], env) if N is None else None, eval(rp["B"], env), [tuple(c) for c in rp["chain"]], "replay", N=N)
+    elif rp.get("op") == "sequence" and rp.get("mutable"):
         do_mutable_sequence(ctx, eval(rp["A"], env), eval(rp["B"], env), rp.get("pre", []), rp["steps"],
                             rp.get("option_during_calls", True), "replay")
     elif rp.get("op") == "sequence":
